@@ -5,6 +5,7 @@ use std::io::{self, BufRead, Write};
 mod eng;
 mod frp;
 mod gc;
+mod thr;
 
 pub struct Script {
     pub name: String,
@@ -75,6 +76,9 @@ fn main() {
             "gc-run" => gc::run_script(s, &mut buf),
             "eng-run" => eng::run_script(s, &mut buf),
             "frp-run" => frp::run_script(s, &mut buf, true),
+            "frp-multi" => frp::run_multi(s, &mut buf),
+            "frp-threads" => frp::run_threads(s, &mut buf),
+            "thr-run" => thr::run_script(s, &mut buf),
             _ => {
                 eprintln!("usage: impl_run (gc-run | eng-run | frp-run)");
                 std::process::exit(2);
